@@ -417,6 +417,10 @@ def check_annotation_index(ctx):
         keys = [(r, tuple(ix)) for r, ix, _ in reads]
         maximal = [(r, ix) for (r, ix) in set(keys) if not any(r == r2 and len(ix2) > len(ix) and ix2[:len(ix)] == ix for (r2, ix2) in keys)]
         bad = []
+        unresolved = [ix for r, ix in maximal if any(str(k_).startswith("expr:") for k_ in ix)]
+        if unresolved:
+            ctx.undecided_item("C17.6", site, "a label index is a bound variable of a nested function (%s): the chain cannot be compared" % unresolved[0][-1][:60])
+            maximal = [(r, ix) for r, ix in maximal if not any(str(k_).startswith("expr:") for k_ in ix)]
         for r, ix in maximal:
             pos = list(ix)
             if r == "labels" and len(pos) == len(cx[1]) + 1:
